@@ -26,7 +26,8 @@
    of depth / inner_text_used (2^31 open elements / bytes of text in one node).
 
    parser_reset is modelled as in the tree WITH fix C10-1 (inner_text_size/used are cleared); the
-   original is kept as reset_state_unfixed for the refutation lemmas. *)
+   original is kept as reset_state_unfixed for the refutation lemmas.  _set_attributes is modelled
+   WITH fix C10-2 (attributes without a namespace are set last). *)
 Require Import LV.Common.Bytes LV.Gen.Gen_parser LV.Spec.ParserSpec.
 Local Open Scope Z_scope.
 
@@ -72,12 +73,20 @@ Fixpoint attr_set (k v : str) (l : alist) : alist :=
   | [] => [(k, v)]
   | (k', v') :: r => if str_eqb k k' then (k', v) :: r else (k', v') :: attr_set k v r
   end.
-(* _set_attributes: for (i = 0; attrs[i]; i += 2) set_attribute(_xml_name(attrs[i]), attrs[i+1]) *)
-Fixpoint set_attributes (attrs : alist) (acc : alist) : alist :=
+(* _set_attributes (with fix C10-2): two passes over attrs[]; pass 0 sets the attributes whose name
+   contains the separator, pass 1 those without, each as set_attribute(_xml_name(attrs[i]), attrs[i+1]) *)
+Definition has_sep (k : str) : bool :=
+  match split_sep k with Some _ => true | None => false end.
+Fixpoint set_attributes_pass (pass : bool) (attrs : alist) (acc : alist) : alist :=
   match attrs with
   | [] => acc
-  | (k, v) :: r => set_attributes r (attr_set (xml_name k) v acc)
+  | (k, v) :: r =>
+      if Bool.eqb (negb (has_sep k)) pass
+      then set_attributes_pass pass r (attr_set (xml_name k) v acc)
+      else set_attributes_pass pass r acc
   end.
+Definition set_attributes (attrs : alist) (acc : alist) : alist :=
+  set_attributes_pass true attrs (set_attributes_pass false attrs acc).
 
 Definition close_frame (f : frame) : node := Elem (f_name f) (f_attrs f) (f_kids f).
 Definition add_kid (f : frame) (n : node) : frame :=
@@ -214,5 +223,11 @@ Definition run (evs : list sax) : result := run_from init_state evs.
 Definition run_unfixed (evs : list sax) : result :=
   run_with reset_state_unfixed (reset_state_unfixed new_state) evs.
 
-Definition outputs (r : result) : option (list out) :=
-  match r with Ok _ o => Some o | _ => None end.
+(* what an observer of the callbacks sees of a run: the outputs, or the kind of failure *)
+Inductive observation : Type :=
+| Delivered (outs : list out)
+| Crashed
+| ReadUninit
+| WroteOOB.
+Definition observe (r : result) : observation :=
+  match r with Ok _ o => Delivered o | Crash => Crashed | Uninit => ReadUninit | OOB => WroteOOB end.
